@@ -33,12 +33,14 @@ type histCall struct {
 	err    error
 	start  int // offset in the (cut) stream where the withheld region of this call starts
 	end    int
+	readerFailedDuring bool // the scripted reader delivered its (one-shot) failure during this call
 }
 
 // history runs the resume loop over a scripted reader until the stream is exhausted.
 func history(sr *scriptReader, opts *Opts, maxCalls int) (calls []histCall, panicked string, lastErr error) {
 	var suffix []byte
 	consumedBefore := 0
+	failedBefore := false
 	for n := 0; n < maxCalls; n++ {
 		in := io.MultiReader(bytes.NewReader(suffix), sr)
 		res := scanOnce(in, opts)
@@ -47,6 +49,8 @@ func history(sr *scriptReader, opts *Opts, maxCalls int) (calls []histCall, pani
 		}
 		end := sr.off - len(res.suffix)
 		c := histCall{prefix: res.prefix, snap: res.snap, suffix: res.suffix, err: res.err, start: consumedBefore + len(res.prefix), end: end}
+		c.readerFailedDuring = sr.failed && !failedBefore
+		failedBefore = sr.failed
 		calls = append(calls, c)
 		lastErr = res.err
 		consumedBefore = end
@@ -145,7 +149,7 @@ func TestVerifC10(t *testing.T) {
 	defer r.Finish(func(s string) { t.Error(s) })
 	N := bufLen()
 	r.Set("reader_buffer_bytes", N)
-	r.Set("rule", "per stream (every line kind of both grammars, junk around): every byte offset as the cut x 4 end signals (EOF after data, EOF with the last data, injected error after data, injected error with the last data) x deliveries (all at once, byte at a time; the same again in the 64-byte buffer build); the whole resume history is run. Oracle: no panic, history terminates; injected error => the history ends with exactly that error; EOF => io.EOF or a parse error, the latter only when the cut lies inside a dump; complete goroutines (text entirely before the cut) present and identical to the uncut parse with pseudo-names blanked, at most one more (partial) goroutine; forwarded bytes are a prefix of the uncut forwarding (modulo <=2 trailing lines that are the start of the dump being cut). non-trivial = cut strictly inside a dump; distinct = (stream, cut, signal, delivery)")
+	r.Set("rule", "per stream (every line kind of both grammars, junk around): every byte offset as the cut x 6 end signals (EOF after data, EOF with the last data, injected error after data, injected error with the last data, each repeated forever; the error reported once then EOF, after / with the last data) x deliveries (all at once, byte at a time; the same again in the 64-byte buffer build); the whole resume history is run. Oracle: no panic, history terminates; injected error => the history ends with exactly that error; EOF => io.EOF or a parse error, the latter only when the cut lies inside a dump; complete goroutines (text entirely before the cut) present and identical to the uncut parse with pseudo-names blanked, at most one more (partial) goroutine; forwarded bytes are a prefix of the uncut forwarding (modulo <=2 trailing lines that are the start of the dump being cut). non-trivial = cut strictly inside a dump; distinct = (stream, cut, signal, delivery)")
 	r.Set("assumptions", []string{"goroutine text ranges come from the generators", "where C10's prefix rule and C02's conservation rule meet (cut inside a dump's first lines) the weaker reading is used (DESIGN.md section 5, C10)"})
 	if rv := r.ReplayFile(); rv != nil {
 		t.Logf("replay %s: %s\nexpected: %s\nobserved: %s\ninput: %q", rv.Key, rv.Summary, rv.Expected, rv.Observed, trunc(string(rv.Input())))
@@ -183,7 +187,7 @@ func TestVerifC10(t *testing.T) {
 			continue
 		}
 		for cut := 0; cut <= len(data); cut++ {
-			for sig := 0; sig < 4; sig++ {
+			for sig := 0; sig < 6; sig++ {
 				for del := 0; del < 2; del++ {
 					seq++
 					if !r.MineIdx(seq) || r.Expired() {
@@ -198,10 +202,11 @@ func TestVerifC10(t *testing.T) {
 						}
 					}
 					v := r.Check(func() *h.Viol {
-						sr := &scriptReader{data: data[:cut], eofWithData: sig == 1 || sig == 3}
+						sr := &scriptReader{data: data[:cut], eofWithData: sig == 1 || sig == 3 || sig == 5}
 						if sig >= 2 {
 							sr.failErr = errSentinel
 						}
+						sr.failOnce = sig >= 4 // the failure is reported once, then the reader says EOF
 						if del == 1 {
 							for i := 0; i < cut; i++ {
 								sr.chunks = append(sr.chunks, 1)
@@ -219,7 +224,25 @@ func TestVerifC10(t *testing.T) {
 						if lastErr != nil && lastErr.Error() == "verif: resume loop did not terminate" {
 							return mk("no-termination", "the resume loop does not terminate")
 						}
-						if sig >= 2 {
+						if sig >= 4 {
+							// A failure that is reported once: the call whose scan loop consumed everything
+							// that was delivered (empty remainder) has been handed the error by its reader
+							// and must return it. If the call ended earlier (its dump ended: a remainder is
+							// handed back, or a snapshot is returned without error) the failure was only
+							// read ahead; no demand is made then.
+							seen, excused := false, false
+							for _, c := range calls {
+								if c.err == errSentinel {
+									seen = true
+								}
+								if c.readerFailedDuring && c.err != errSentinel && (len(c.suffix) != 0 || (c.snap != nil && c.err == nil)) {
+									excused = true
+								}
+							}
+							if !seen && !excused {
+								return mk("one-shot-reader-error-not-reported", fmt.Sprintf("the reader failed once with the injected error while the call consumed all delivered data; no call of the history returned it (history ends with %v)", lastErr))
+							}
+						} else if sig >= 2 {
 							if lastErr != errSentinel {
 								return mk("reader-error-not-reported", fmt.Sprintf("the reader failed with the injected error but the history ends with %v", lastErr))
 							}
@@ -286,7 +309,7 @@ func TestVerifC10(t *testing.T) {
 								return mk("dump-with-complete-goroutines-missing", fmt.Sprintf("dump %d has goroutines entirely before the cut but no snapshot was returned for it", ui))
 							}
 						}
-						if sig >= 2 {
+						if sig >= 2 && sig < 4 {
 							lastNL := bytes.LastIndexByte(data[:cut], '\n')
 							for ci, c := range calls {
 								if c.err != nil && c.err != errSentinel && c.err != io.EOF && c.end >= lastNL+1 && cut > lastNL+1 {
@@ -321,7 +344,7 @@ func TestVerifC10(t *testing.T) {
 					}
 					r.Record(key, inside, fmt.Sprintf("%s sig=%d inside=%v", out, sig, inside))
 					if cut%97 == 5 && sig == 2 && del == 0 {
-						r.Sample(map[string]any{"stream": st.name, "cut": cut, "signal": []string{"EOF after data", "EOF with data", "error after data", "error with data"}[sig], "inside_dump": inside, "text_before_cut": trunc(string(data[:cut]))})
+						r.Sample(map[string]any{"stream": st.name, "cut": cut, "signal": []string{"EOF after data", "EOF with data", "error after data", "error with data", "one-shot error after data", "one-shot error with data"}[sig], "inside_dump": inside, "text_before_cut": trunc(string(data[:cut]))})
 					}
 				}
 			}
